@@ -185,6 +185,30 @@ def _featurizer_unit(name, fes, params, features, states=(), add_intercept=True,
             if want is not None:
                 for nm, m in (("fit", fit), ("prediction", hold)):
                     h.ensures(f"{f_}.{nm}_matrix_holds_the_feature_centred_over_all_units", z3.Implies(facts, real(m.col(f_).t) == want))
+        # ---- what the matrices depend on: only the columns the Featurizer is entitled to read (C10 relies on this)
+        allowed = {"postal_code", "reporting", "unit_category"} | set(features) | set(fes)
+        inputs = {f_.name() for f_ in (c_.decl() for c_ in [cols[k] for k in cols])}
+        defs_ = {}
+        for d_ in h.ctx.__dict__.get("_sums", []):
+            hd = d_.sym.decl().name() if z3.is_app(d_.sym) and d_.sym.decl().kind() == z3.Z3_OP_UNINTERPRETED else None
+            if hd:
+                defs_.setdefault(hd, []).extend([d_.dom, d_.summand])
+        for rec in h.ctx.__dict__.get("_anyall", []):
+            defs_.setdefault(rec["b"].decl().name(), []).append(rec["body"](root.u))
+        read, todo, seen_ = set(), [m_.col(c_).t for m_ in (fit, hold) for c_ in m_.cols], set()
+        while todo:
+            x = todo.pop()
+            if x.get_id() in seen_:
+                continue
+            seen_.add(x.get_id())
+            if z3.is_app(x):
+                if x.decl().kind() == z3.Z3_OP_UNINTERPRETED:
+                    nm_ = x.decl().name()
+                    if nm_ in inputs:
+                        read.add(nm_)
+                    todo.extend(defs_.get(nm_, []))
+                todo.extend(x.children())
+        h.ensures("matrices_depend_only_on_feature_fixed_effect_state_reporting_and_category_columns", read <= allowed, why=str(sorted(read - allowed)))
         # ---- per-state feature copies: only (and exactly) for the states that have reporting units
         tests = h.interp.__dict__.get("unique_tests", [])
         for st in states:
